@@ -1,9 +1,31 @@
-"""Translator items for C17: the CBF timestamp-fix rule of VisibilityDataV4.__init__ and preselect validation."""
+"""Translator items for C17 (all fail closed on any unexpected shape):
+
+  item_fix_rule   visdatav4.py   the CBF timestamp-fix decision expression, its dates, markers and the attributes tested
+  item_v4_time    visdatav4.py   the ORDER, operands and signs of every statement of VisibilityDataV4.__init__ that
+                                 writes source.timestamps / self.time_offset / capture_start / half_dump / start / end
+  item_ds_time    datasources.py timestamp synthesis expressions, and the order synthesise -> remember capture start ->
+                                 preselect dumps -> hand over to DataSource
+  item_preselect  datasources.py allowed preselect keys and steps, shape of the two rejections
+  item_v4_freq    visdatav4.py   telstate attributes -> SpectralWindow arguments, channel preselection -> subrange
+  item_spw        spectral_window.py  __init__ (bandwidth / channel_width), channel_freqs expression, subrange and
+                                 rechannelise compiled statement by statement to Gallina
+
+Numeric code is emitted over an abstract carrier `A` with operations (o_add o_sub o_mul o_div : A -> A -> A) and
+(o_ofZ : Z -> A) because Generated.v only imports ZArith; Model/TimeFreq.v instantiates A := Q.  Integer-valued
+sub-expressions (//, %, comparisons, np.arange) stay in Z (Python floor division and modulo agree with Z.div / Z.modulo
+for every sign)."""
 import ast
 import calendar
 import time
+from fractions import Fraction
 
 from vh.translate import TranslateError, _parse, _class, _func, coq_string, coq_Z
+
+OPS = '{A : Type} (o_add o_sub o_mul o_div : A -> A -> A) (o_ofZ : Z -> A)'
+
+
+def _u(node):
+    return ast.unparse(node).replace(' ', '')
 
 
 def _date_secs(s):
@@ -12,6 +34,90 @@ def _date_secs(s):
     except ValueError:
         raise TranslateError('fix rule: date %r not in YYYY-MM-DD form' % s)
 
+
+# --------------------------------------------------------------------------- typed expressions
+
+def _promote(t):
+    ty, code = t
+    if ty == 'Q':
+        return code
+    if ty == 'Z':
+        return '(o_ofZ %s)' % code
+    raise TranslateError('boolean used as a number: %s' % code)
+
+
+def tx(node, env, what):
+    """-> (type, code); type in 'Z', 'Q', 'B'.  env: unparsed Name/Attribute -> (type, coq identifier);
+    env['@arange'] = (argument text, coq identifier) makes np.arange(<argument>) the integer variable."""
+    key = _u(node)
+    if isinstance(node, (ast.Name, ast.Attribute, ast.Subscript)) and key in env:
+        return env[key]
+    if isinstance(node, ast.Constant) and not isinstance(node.value, bool):
+        if isinstance(node.value, int):
+            return ('Z', coq_Z(node.value))
+        if isinstance(node.value, float):
+            f = Fraction(node.value)
+            if f.denominator == 1:
+                return ('Q', '(o_ofZ %s)' % coq_Z(f.numerator))
+            return ('Q', '(o_div (o_ofZ %s) (o_ofZ %s))' % (coq_Z(f.numerator), coq_Z(f.denominator)))
+    if isinstance(node, ast.Call) and '@arange' in env and _u(node.func) == 'np.arange' and len(node.args) == 1 \
+            and not node.keywords and _u(node.args[0]) == env['@arange'][0]:
+        return ('Z', env['@arange'][1])
+    if isinstance(node, ast.UnaryOp) and isinstance(node.op, ast.USub):
+        t = tx(node.operand, env, what)
+        if t[0] == 'Z':
+            return ('Z', '(- %s)' % t[1])
+        return ('Q', '(o_sub (o_ofZ (0)%%Z) %s)' % _promote(t))
+    if isinstance(node, ast.UnaryOp) and isinstance(node.op, ast.Not):
+        t = tx(node.operand, env, what)
+        if t[0] != 'B':
+            raise TranslateError('%s: `not` of a non-boolean %s' % (what, key))
+        return ('B', '(negb %s)' % t[1])
+    if isinstance(node, ast.BoolOp):
+        ts = [tx(v, env, what) for v in node.values]
+        if any(t[0] != 'B' for t in ts):
+            raise TranslateError('%s: and/or of non-booleans %s' % (what, key))
+        return ('B', '(' + (' || ' if isinstance(node.op, ast.Or) else ' && ').join(t[1] for t in ts) + ')')
+    if isinstance(node, ast.Compare):
+        sym = {ast.Lt: '%s <? %s', ast.LtE: '%s <=? %s', ast.Gt: '%s >? %s', ast.GtE: '%s >=? %s',
+               ast.Eq: '%s =? %s', ast.NotEq: 'negb (%s =? %s)'}
+        operands = [tx(x, env, what) for x in [node.left] + node.comparators]
+        if any(t[0] != 'Z' for t in operands):
+            raise TranslateError('%s: comparison of non-integers %s' % (what, key))
+        parts = []
+        for (a, op, b) in zip(operands, node.ops, operands[1:]):
+            if type(op) not in sym:
+                raise TranslateError('%s: unsupported comparison %s' % (what, key))
+            parts.append('(' + sym[type(op)] % (a[1], b[1]) + ')')
+        return ('B', parts[0] if len(parts) == 1 else '(' + ' && '.join(parts) + ')')
+    if isinstance(node, ast.BinOp):
+        a, b = tx(node.left, env, what), tx(node.right, env, what)
+        if 'B' in (a[0], b[0]):
+            raise TranslateError('%s: arithmetic on a boolean %s' % (what, key))
+        zz = a[0] == 'Z' and b[0] == 'Z'
+        if isinstance(node.op, (ast.Add, ast.Sub, ast.Mult)):
+            if zz:
+                return ('Z', '(%s %s %s)' % (a[1], {ast.Add: '+', ast.Sub: '-', ast.Mult: '*'}[type(node.op)], b[1]))
+            return ('Q', '(%s %s %s)' % ({ast.Add: 'o_add', ast.Sub: 'o_sub', ast.Mult: 'o_mul'}[type(node.op)],
+                                         _promote(a), _promote(b)))
+        if isinstance(node.op, ast.Div):
+            return ('Q', '(o_div %s %s)' % (_promote(a), _promote(b)))
+        if isinstance(node.op, (ast.FloorDiv, ast.Mod)):
+            if not zz:
+                raise TranslateError('%s: // or %% on non-integers %s' % (what, key))
+            return ('Z', '(%s %s %s)' % (a[1], '/' if isinstance(node.op, ast.FloorDiv) else 'mod', b[1]))
+    raise TranslateError('%s: unsupported expression %s' % (what, key[:120]))
+
+
+def _coerce(t, ty, what):
+    if t[0] == ty:
+        return t[1]
+    if ty == 'Q':
+        return _promote(t)
+    raise TranslateError('%s: %s expected, got %s: %s' % (what, ty, t[0], t[1]))
+
+
+# --------------------------------------------------------------------------- the fix rule
 
 def _bexpr(node, dates):
     """Boolean expression over _before('<date>') calls and the names cmc2, cbf4k."""
@@ -30,73 +136,566 @@ def _bexpr(node, dates):
     raise TranslateError('fix rule: unsupported expression ' + ast.dump(node)[:100])
 
 
-def item_fix_rule(repo, out):
+def _v4_init(repo):
     rel = 'katdal/visdatav4.py'
-    tree = _parse(repo, rel)
-    init = _func(_class(tree, 'VisibilityDataV4', rel), '__init__', rel)
-    # _before must be `source.timestamps[0] < katpoint.Timestamp(date).secs`
-    bef = [n for n in init.body if isinstance(n, ast.FunctionDef) and n.name == '_before']
-    if len(bef) != 1 or len(bef[0].body) != 1 or not isinstance(bef[0].body[0], ast.Return):
+    return _func(_class(_parse(repo, rel), 'VisibilityDataV4', rel), '__init__', rel)
+
+
+def _is_fix_if(n):
+    return isinstance(n, ast.If) and '_before' in ast.unparse(n.test) and 'cmc2' in ast.unparse(n.test)
+
+
+def fix_date_strings(repo):
+    """The date strings of the rule, for the harness (which checks katpoint's reading of them)."""
+    dates = []
+    for n in _v4_init(repo).body:
+        if _is_fix_if(n):
+            _bexpr(n.test, dates)
+    return dates
+
+
+def item_fix_rule(repo, out):
+    init = _v4_init(repo)
+    # _before must be `capture_start < katpoint.Timestamp(date).secs`
+    bef = [n for n in ast.walk(init) if isinstance(n, ast.FunctionDef) and n.name == '_before']
+    if len(bef) != 1 or bef[0] not in init.body or len(bef[0].body) != 1 or not isinstance(bef[0].body[0], ast.Return) \
+            or [a.arg for a in bef[0].args.args] != ['date'] or bef[0].args.defaults or bef[0].decorator_list:
         raise TranslateError('visdatav4: _before helper not of the expected shape')
-    src = ast.unparse(bef[0].body[0].value).replace(' ', '')
+    src = _u(bef[0].body[0].value)
     if src != 'capture_start<katpoint.Timestamp(date).secs':
         raise TranslateError('visdatav4: _before is %s' % src)
-    # capture_start must be the first timestamp of the CAPTURE (recorded by the data source before preselection)
-    srcs = [ast.unparse(n).replace(' ', '') for n in init.body]
-    for need in ("capture_start=getattr(source,'capture_start',None)",
-                 'capture_start=source.timestamps[0]ifcapture_startisNoneelsecapture_start+self.time_offset'):
-        if need not in srcs:
-            raise TranslateError('visdatav4: capture_start is not computed as expected (%s)' % need)
-    ds = _func(_class(_parse(repo, 'katdal/datasources.py'), 'TelstateDataSource', 'katdal/datasources.py'), '__init__', 'katdal/datasources.py')
-    dsrc = [ast.unparse(n).replace(' ', '') for n in ds.body]
-    rec = 'capture_start=timestamps[0]iflen(timestamps)elseNone'
-    pre = [k for k, x in enumerate(dsrc) if x.startswith("if'dumps'inpreselect:")]
-    if not (rec in dsrc and pre and dsrc.index(rec) < pre[0] and 'self.capture_start=capture_start' in dsrc):
-        raise TranslateError('datasources: capture_start is not recorded before the dump preselection')
     markers = {}
     rule = None
-    fix_body = None
+    for n in ast.walk(init):
+        if isinstance(n, (ast.Assign, ast.AugAssign, ast.AnnAssign, ast.NamedExpr)):
+            tg = n.targets if isinstance(n, ast.Assign) else [n.target]
+            for t in tg:
+                for nm in ast.walk(t):
+                    if isinstance(nm, ast.Name) and nm.id in ('cmc2', 'cbf4k', '_before') and n not in init.body:
+                        raise TranslateError('visdatav4: %s assigned in a nested statement' % nm.id)
     for n in init.body:
-        if isinstance(n, ast.Assign) and len(n.targets) == 1 and isinstance(n.targets[0], ast.Name) \
-                and n.targets[0].id in ('cmc2', 'cbf4k'):
+        if isinstance(n, ast.Assign) and any(isinstance(t, ast.Name) and t.id in ('cmc2', 'cbf4k') for t in n.targets):
+            if len(n.targets) != 1 or n.targets[0].id in markers:
+                raise TranslateError('visdatav4: cmc2/cbf4k assigned more than once')
             v = n.value
             if not (isinstance(v, ast.Compare) and len(v.ops) == 1 and isinstance(v.ops[0], ast.In)
                     and isinstance(v.left, ast.Constant) and isinstance(v.left.value, str)):
                 raise TranslateError('visdatav4: %s is not a substring test' % n.targets[0].id)
-            markers[n.targets[0].id] = (v.left.value, ast.unparse(v.comparators[0]))
-        if isinstance(n, ast.If) and '_before' in ast.unparse(n.test) and 'cmc2' in ast.unparse(n.test):
+            c = v.comparators[0]
+            if not (isinstance(c, ast.Subscript) and _u(c.value) == 'attrs' and isinstance(c.slice, ast.Constant)
+                    and isinstance(c.slice.value, str)):
+                raise TranslateError('visdatav4: %s does not test a telstate attribute' % n.targets[0].id)
+            if rule is not None:
+                raise TranslateError('visdatav4: %s assigned after the fix rule' % n.targets[0].id)
+            markers[n.targets[0].id] = (v.left.value, c.slice.value)
+        if _is_fix_if(n):
             if rule is not None:
                 raise TranslateError('visdatav4: more than one fix rule')
             dates = []
             rule = _bexpr(n.test, dates)
-            fix_body = n
     if rule is None or set(markers) != {'cmc2', 'cbf4k'}:
         raise TranslateError('visdatav4: fix rule / markers not found')
     out.append('Definition fix_rule (before : Z -> bool) (cmc2 cbf4k : bool) : bool :=\n  %s.' % rule)
     out.append('Definition fix_dates : list Z := [%s].' % '; '.join(coq_Z(s) for _, s in dates))
     out.append('Definition fix_cmc2_marker : string := %s.' % coq_string(markers['cmc2'][0]))
     out.append('Definition fix_cbf4k_marker : string := %s.' % coq_string(markers['cbf4k'][0]))
+    out.append('Definition fix_cmc2_attr : string := %s.' % coq_string(markers['cmc2'][1]))
+    out.append('Definition fix_cbf4k_attr : string := %s.' % coq_string(markers['cbf4k'][1]))
 
+
+# --------------------------------------------------------------------------- VisibilityDataV4.__init__: time statements
+
+TIME_TARGETS = {'source.timestamps', 'self.time_offset', 'capture_start', 'half_dump', 'self.start_time',
+                'self.end_time', 'self.dump_period', 'self.cbf_dump_period', 'source.capture_start', 'source'}
+
+
+def _stores(fn):
+    """Every statement of fn (at any depth, nested function bodies included) that stores into something."""
+    res = []
+    for n in ast.walk(fn):
+        tg = []
+        if isinstance(n, ast.Assign):
+            tg = n.targets
+        elif isinstance(n, (ast.AugAssign, ast.AnnAssign, ast.NamedExpr)):
+            tg = [n.target]
+        elif isinstance(n, (ast.For, ast.AsyncFor)):
+            tg = [n.target]
+        elif isinstance(n, (ast.With, ast.AsyncWith)):
+            tg = [i.optional_vars for i in n.items if i.optional_vars is not None]
+        elif isinstance(n, ast.Delete):
+            tg = n.targets
+        elif isinstance(n, ast.ExceptHandler) and n.name:
+            res.append((n, [n.name]))
+        elif isinstance(n, ast.comprehension):
+            tg = [n.target]
+        names = []
+        for t in tg:
+            for e in ast.walk(t):
+                if isinstance(e, (ast.Name, ast.Attribute)):
+                    names.append(_u(e))
+                if isinstance(e, ast.Subscript):
+                    names.append(_u(e.value))
+        if names:
+            res.append((n, names))
+    return res
+
+
+def _sign(op, what):
+    if isinstance(op, ast.Add):
+        return 1
+    if isinstance(op, ast.Sub):
+        return -1
+    raise TranslateError('%s: operator is neither + nor -' % what)
+
+
+def item_v4_time(repo, out):
+    init = _v4_init(repo)
+    top = {id(n): k for k, n in enumerate(init.body)}
+    prog = []      # (position in the body, opcode, argument)
+    half = None
+    fix_if = [n for n in init.body if _is_fix_if(n)]
+    if len(fix_if) != 1:
+        raise TranslateError('visdatav4: fix rule not found at the top level of __init__')
+    fix_if = fix_if[0]
+    inner = fix_if.body
+    if not (len(inner) == 1 and isinstance(inner[0], ast.If) and _u(inner[0].test) == 'self.cbf_dump_period is not None'.replace(' ', '')
+            and not fix_if.orelse):
+        raise TranslateError('visdatav4: body of the fix rule is not `if self.cbf_dump_period is not None: ... else: ...`')
+    fix_stmts = {id(n): n for n in inner[0].body}
+    seen_dump_period = seen_cbf = 0
+    for n, names in _stores(init):
+        hit = [x for x in names if x in TIME_TARGETS]
+        if not hit:
+            continue
+        s = _u(n)
+        pos = top.get(id(n))
+        if s == "self.dump_period=attrs['int_time']" and pos is not None:
+            seen_dump_period += 1
+            dump_pos = pos
+            continue
+        if isinstance(n, ast.Assign) and 'self.cbf_dump_period' in names and id(n) not in top:
+            # the two stores in the try/except/else that reads the CBF attributes
+            if s.replace('(', '').replace(')', '') in (
+                    'self.cbf_dump_period,cbf_n_accs,f_engine_stream,scale_factor_timestamp=_cbf_attrsattrs',
+                     'self.cbf_dump_period=self.accumulations_per_dump=None'):
+                seen_cbf += 1
+                continue
+        if s == 'num_dumps=len(source.timestamps)':
+            continue
+        if isinstance(n, ast.AugAssign) and _u(n.target) == 'source.timestamps' and pos is not None \
+                and _u(n.value) == 'self.time_offset':
+            prog.append((pos, 1, _sign(n.op, s)))
+            continue
+        if s == "capture_start=getattr(source,'capture_start',None)" and pos is not None:
+            prog.append((pos, 7, 0))
+            continue
+        if isinstance(n, ast.Assign) and _u(n.targets[0]) == 'capture_start' and len(n.targets) == 1 and pos is not None \
+                and isinstance(n.value, ast.IfExp) and _u(n.value.test) == 'capture_startisNone' \
+                and _u(n.value.body) == 'source.timestamps[0]':
+            e = n.value.orelse
+            if _u(e) == 'capture_start':
+                sg = 0
+            elif isinstance(e, ast.BinOp) and _u(e.left) == 'capture_start' and _u(e.right) == 'self.time_offset':
+                sg = _sign(e.op, s)
+            else:
+                raise TranslateError('visdatav4: capture_start is %s' % s)
+            prog.append((pos, 2, sg))
+            continue
+        if isinstance(n, ast.AugAssign) and id(n) in fix_stmts and _u(n.value) == 'self.cbf_dump_period' \
+                and _u(n.target) in ('source.timestamps', 'self.time_offset'):
+            k = list(fix_stmts).index(id(n))
+            prog.append((top[id(fix_if)] + 0.001 * (k + 1), 3 if _u(n.target) == 'source.timestamps' else 6, _sign(n.op, s)))
+            continue
+        if isinstance(n, ast.Assign) and _u(n.targets[0]) == 'half_dump' and len(n.targets) == 1 and pos is not None:
+            t = tx(n.value, {'self.dump_period': ('Q', 'dump_period')}, 'half_dump')
+            if half is not None:
+                raise TranslateError('visdatav4: half_dump assigned twice')
+            half = (pos, _coerce(t, 'Q', 'half_dump'))
+            continue
+        if isinstance(n, ast.Assign) and len(n.targets) == 1 and pos is not None \
+                and _u(n.targets[0]) in ('self.start_time', 'self.end_time'):
+            v = n.value
+            which = _u(n.targets[0])
+            idx = '0' if which == 'self.start_time' else '-1'
+            if not (isinstance(v, ast.Call) and _u(v.func) == 'katpoint.Timestamp' and len(v.args) == 1 and not v.keywords
+                    and isinstance(v.args[0], ast.BinOp) and _u(v.args[0].left) == 'source.timestamps[%s]' % idx
+                    and _u(v.args[0].right) == 'half_dump'):
+                raise TranslateError('visdatav4: %s' % s)
+            prog.append((pos, 4 if which == 'self.start_time' else 5, _sign(v.args[0].op, s)))
+            continue
+        raise TranslateError('visdatav4: unexpected statement writing %s: %s' % (','.join(hit), s[:100]))
+    if seen_dump_period != 1 or seen_cbf != 2 or half is None:
+        raise TranslateError('visdatav4: dump_period / cbf_dump_period / half_dump not assigned as expected')
+    prog.sort()
+    codes = [p[1] for p in prog]
+    if sorted(codes) != [1, 2, 3, 4, 5, 6, 7]:
+        raise TranslateError('visdatav4: time statements found: %s' % codes)
+    if not (dump_pos < prog[0][0] and half[0] < min(p[0] for p in prog if p[1] in (4, 5))):
+        raise TranslateError('visdatav4: dump_period / half_dump assigned too late')
+    # the sensor cache must be built on the final timestamps... it shares the array, which is only ever shifted in
+    # place (checked above: no rebinding of source.timestamps), so its position does not matter.
+    out.append('(* opcodes: 1 timestamps += s*time_offset | 7 capture_start := source.capture_start | '
+               '2 capture_start := timestamps[0] if None else capture_start + s*time_offset | '
+               '3 (rule, CBF known) timestamps += s*cbf | 6 (rule, CBF known) time_offset += s*cbf | '
+               '4 start := timestamps[0] + s*half_dump | 5 end := timestamps[-1] + s*half_dump *)')
+    out.append('Definition gen_v4_time_prog : list (Z * Z) := [%s].'
+               % '; '.join('(%s, %s)' % (coq_Z(c), coq_Z(a)) for _, c, a in prog))
+    out.append('Definition gen_v4_half_dump %s (dump_period : A) : A := %s.' % (OPS, half[1]))
+
+
+# --------------------------------------------------------------------------- TelstateDataSource.__init__: timestamps
+
+DS_TARGETS = {'timestamps', 't0', 'int_time', 'n_dumps', 'capture_start', 'self.capture_start', 'self.timestamps',
+              'preselect'}
+
+
+def _ds_init(repo):
+    rel = 'katdal/datasources.py'
+    return _func(_class(_parse(repo, rel), 'TelstateDataSource', rel), '__init__', rel)
+
+
+def item_ds_time(repo, out):
+    init = _ds_init(repo)
+    top = {id(n): k for k, n in enumerate(init.body)}
+    synth = [n for n in init.body if isinstance(n, ast.If) and _u(n.test) == 'timestampsisNone' and not n.orelse]
+    if len(synth) != 1:
+        raise TranslateError('datasources: `if timestamps is None:` synthesis block not found')
+    synth = synth[0]
+    inside = {id(n): n for n in synth.body}
+    pre = [n for n in init.body if isinstance(n, ast.If) and _u(n.test) == "'dumps'inpreselect" and not n.orelse]
+    if len(pre) != 1 or len(pre[0].body) != 1:
+        raise TranslateError("datasources: `if 'dumps' in preselect:` block not found")
+    pre = pre[0]
+    defaults = [n for n in init.body if isinstance(n, ast.If) and _u(n.test) == 'preselectisNone']
+    exprs = {}
+    prog = []
+    for n, names in _stores(init):
+        hit = [x for x in names if x in DS_TARGETS]
+        if not hit:
+            continue
+        s = _u(n)
+        if defaults and n in defaults[0].body and s == 'preselect={}':
+            continue
+        if id(n) in inside and isinstance(n, ast.Assign) and len(n.targets) == 1 \
+                and _u(n.targets[0]) in ('t0', 'int_time', 'n_dumps', 'timestamps'):
+            exprs[_u(n.targets[0])] = (list(inside).index(id(n)), n.value)
+            continue
+        if s == 'capture_start=timestamps[0]iflen(timestamps)elseNone' and id(n) in top:
+            prog.append((top[id(n)], 2))
+            continue
+        if n is pre.body[0] and s == "timestamps=timestamps[preselect['dumps']]":
+            prog.append((top[id(pre)], 3))
+            continue
+        if s == 'self.capture_start=capture_start' and id(n) in top:
+            prog.append((top[id(n)], 5))
+            continue
+        raise TranslateError('datasources: unexpected statement writing %s: %s' % (','.join(hit), s[:100]))
+    if set(exprs) != {'t0', 'int_time', 'n_dumps', 'timestamps'} or \
+            not (exprs['t0'][0] < exprs['timestamps'][0] and exprs['int_time'][0] < exprs['timestamps'][0]):
+        raise TranslateError('datasources: synthesis block does not assign t0, int_time, n_dumps, timestamps in order')
+    prog.append((top[id(synth)], 1))
+    hand = [k for k, n in enumerate(init.body) if _u(n) == 'DataSource.__init__(self,metadata,timestamps,data)']
+    if len(hand) != 1:
+        raise TranslateError('datasources: DataSource.__init__(self, metadata, timestamps, data) not found')
+    prog.append((hand[0], 4))
+    prog.sort()
+    if sorted(p[1] for p in prog) != [1, 2, 3, 4, 5]:
+        raise TranslateError('datasources: timestamp statements found: %s' % [p[1] for p in prog])
+    if _u(exprs['int_time'][1]) != "telstate['int_time']" or \
+            _u(exprs['n_dumps'][1]) != "chunk_info['correlator_data']['shape'][0]":
+        raise TranslateError('datasources: int_time / n_dumps not read as expected')
+    env = {"telstate['sync_time']": ('Q', 'sync_time'), "telstate['first_timestamp']": ('Q', 'first_timestamp')}
+    t0 = _coerce(tx(exprs['t0'][1], env, 't0'), 'Q', 't0')
+    env = {'t0': ('Q', 't0'), 'int_time': ('Q', 'int_time'), '@arange': ('n_dumps', 'k')}
+    ts = _coerce(tx(exprs['timestamps'][1], env, 'timestamps'), 'Q', 'timestamps')
+    # the base class must keep the array it is given (VisibilityDataV4 then shifts it in place)
+    rel = 'katdal/datasources.py'
+    base = _func(_class(_parse(repo, rel), 'DataSource', rel), '__init__', rel)
+    if 'self.timestamps=timestamps' not in [_u(n) for n in base.body] or \
+            [a.arg for a in base.args.args][:4] != ['self', 'metadata', 'timestamps', 'data']:
+        raise TranslateError('datasources: DataSource.__init__ does not store the timestamps it is given')
+    out.append('(* opcodes: 1 synthesise timestamps | 2 capture_start := timestamps[0] | 3 timestamps := '
+               "timestamps[preselect['dumps']] | 4 DataSource.__init__(.., timestamps, ..) | 5 self.capture_start := capture_start *)")
+    out.append('Definition gen_ds_prog : list Z := [%s].' % '; '.join(coq_Z(c) for _, c in prog))
+    out.append('Definition gen_ds_t0 %s (sync_time first_timestamp : A) : A := %s.' % (OPS, t0))
+    out.append('Definition gen_ds_timestamp %s (t0 int_time : A) (k : Z) : A := %s.' % (OPS, ts))
+
+
+# --------------------------------------------------------------------------- preselect validation
 
 def item_preselect(repo, out):
-    rel = 'katdal/datasources.py'
-    tree = _parse(repo, rel)
-    init = _func(_class(tree, 'TelstateDataSource', rel), '__init__', rel)
+    init = _ds_init(repo)
     keys = None
     steps = None
-    for n in ast.walk(init):
-        if isinstance(n, ast.Assign) and ast.unparse(n.targets[0]) == 'unexpected':
+    for k, n in enumerate(init.body):
+        if isinstance(n, ast.Assign) and _u(n.targets[0]) == 'unexpected':
             v = n.value
-            if isinstance(v, ast.BinOp) and isinstance(v.op, ast.Sub) and isinstance(v.right, ast.Set):
+            if isinstance(v, ast.BinOp) and isinstance(v.op, ast.Sub) and isinstance(v.right, ast.Set) \
+                    and _u(v.left) == 'set(preselect.keys())':
                 keys = sorted(ast.literal_eval(v.right))
-        if isinstance(n, ast.If) and 'idx.step not in' in ast.unparse(n.test):
-            t = ast.unparse(n.test).replace(' ', '')
-            if t != 'notisinstance(idx,slice)oridx.stepnotin{None,1}':
-                raise TranslateError('datasources: preselect step test is %s' % t)
-            steps = True
-    if keys is None or not steps:
+            nxt = init.body[k + 1]
+            if not (isinstance(nxt, ast.If) and _u(nxt.test) == 'unexpected' and len(nxt.body) == 1
+                    and isinstance(nxt.body[0], ast.Raise) and _u(nxt.body[0].exc).startswith('IndexError(')):
+                raise TranslateError('datasources: unexpected preselect keys are not rejected with IndexError')
+        if isinstance(n, ast.For) and _u(n.iter) == 'preselect.items()' and _u(n.target) == '(key,idx)':
+            if not (len(n.body) == 1 and isinstance(n.body[0], ast.If) and len(n.body[0].body) == 1
+                    and isinstance(n.body[0].body[0], ast.Raise) and _u(n.body[0].body[0].exc).startswith('IndexError(')):
+                raise TranslateError('datasources: preselect values are not rejected with IndexError')
+            t = n.body[0].test
+            if not (isinstance(t, ast.BoolOp) and isinstance(t.op, ast.Or) and len(t.values) == 2
+                    and _u(t.values[0]) == 'notisinstance(idx,slice)' and isinstance(t.values[1], ast.Compare)
+                    and _u(t.values[1].left) == 'idx.step' and len(t.values[1].ops) == 1
+                    and isinstance(t.values[1].ops[0], ast.NotIn) and isinstance(t.values[1].comparators[0], ast.Set)):
+                raise TranslateError('datasources: preselect step test is %s' % _u(t))
+            steps = []
+            for e in t.values[1].comparators[0].elts:
+                if isinstance(e, ast.Constant) and e.value is None:
+                    steps.append('None')
+                elif isinstance(e, ast.Constant) and isinstance(e.value, int) and not isinstance(e.value, bool):
+                    steps.append('Some %s' % coq_Z(e.value))
+                else:
+                    raise TranslateError('datasources: preselect step set is %s' % _u(t.values[1].comparators[0]))
+    if keys is None or steps is None or not all(isinstance(k, str) for k in keys):
         raise TranslateError('datasources: preselect validation not found')
     out.append('Definition preselect_keys : list string := [%s].' % '; '.join(coq_string(k) for k in keys))
+    out.append('Definition preselect_steps : list (option Z) := [%s].' % '; '.join(steps))
 
 
-ITEMS = [item_fix_rule, item_preselect]
+# --------------------------------------------------------------------------- SpectralWindow
+
+SPW_SELF = {'self.centre_freq': ('Q', 'self_centre_freq'), 'self.channel_width': ('Q', 'self_channel_width'),
+            'self.bandwidth': ('Q', 'self_bandwidth'), 'self.num_chans': ('Z', 'self_num_chans'),
+            'self.sideband': ('Z', 'self_sideband')}
+SPW_SELF_BINDERS = '(self_centre_freq self_channel_width self_bandwidth : A) (self_num_chans self_sideband : Z)'
+SPW_PARAMS = ['self', 'centre_freq', 'channel_width', 'num_chans', 'product', 'sideband', 'band', 'bandwidth']
+SELF_TUPLE = '(self_centre_freq, self_channel_width, self_num_chans, self_sideband, Some self_bandwidth)'
+
+
+def _spw_tuple(call, env, what):
+    """SpectralWindow(...) call -> (centre_freq, channel_width, num_chans, sideband, option bandwidth)."""
+    if not (isinstance(call, ast.Call) and _u(call.func) == 'SpectralWindow'):
+        raise TranslateError('%s: does not return a SpectralWindow(...)' % what)
+    if len(call.args) > 7 or any(k.arg is None for k in call.keywords) or any(isinstance(a, ast.Starred) for a in call.args):
+        raise TranslateError('%s: SpectralWindow call with too many / starred arguments' % what)
+    b = dict(zip(SPW_PARAMS[1:], call.args))
+    for k in call.keywords:
+        if k.arg in b or k.arg not in SPW_PARAMS[1:]:
+            raise TranslateError('%s: SpectralWindow keyword %s' % (what, k.arg))
+        b[k.arg] = k.value
+    for need in ('centre_freq', 'channel_width', 'num_chans', 'product', 'sideband', 'band'):
+        if need not in b:
+            raise TranslateError('%s: SpectralWindow call lacks %s' % (what, need))
+    if _u(b['product']) != 'self.product' or _u(b['band']) != 'self.band':
+        raise TranslateError('%s: product / band are not passed on' % what)
+    bw = 'None' if 'bandwidth' not in b else 'Some %s' % _coerce(tx(b['bandwidth'], env, what), 'Q', what)
+    return '(%s, %s, %s, %s, %s)' % (_coerce(tx(b['centre_freq'], env, what), 'Q', what),
+                                     _coerce(tx(b['channel_width'], env, what), 'Q', what),
+                                     _coerce(tx(b['num_chans'], env, what), 'Z', what),
+                                     _coerce(tx(b['sideband'], env, what), 'Z', what), bw)
+
+
+def _compile(stmts, env, what, optional):
+    """Straight-line statements -> nested Gallina lets ending in the result tuple."""
+    if not stmts:
+        raise TranslateError('%s: falls off the end' % what)
+    n, rest = stmts[0], stmts[1:]
+    if isinstance(n, ast.Expr) and isinstance(n.value, ast.Constant) and isinstance(n.value.value, str):
+        return _compile(rest, env, what, optional)
+    if isinstance(n, ast.Return):
+        if rest:
+            raise TranslateError('%s: statements after return' % what)
+        r = SELF_TUPLE if _u(n.value) == 'self' else _spw_tuple(n.value, env, what)
+        return ('Some %s' % r) if optional else r
+    if isinstance(n, ast.If) and not n.orelse and len(n.body) == 1:
+        c = tx(n.test, env, what)
+        if c[0] != 'B':
+            raise TranslateError('%s: condition %s is not boolean' % (what, _u(n.test)))
+        b = n.body[0]
+        if isinstance(b, ast.Raise):
+            if not optional or not _u(b.exc).startswith('IndexError('):
+                raise TranslateError('%s: unexpected raise' % what)
+            return 'if %s then None else\n  %s' % (c[1], _compile(rest, env, what, optional))
+        if isinstance(b, ast.Return):
+            return 'if %s then %s else\n  %s' % (c[1], _compile([b], env, what, optional), _compile(rest, env, what, optional))
+        if isinstance(b, (ast.Assign, ast.AugAssign)):
+            name, ty, code = _assign(b, env, what)
+            if name not in env:
+                raise TranslateError('%s: %s first assigned under a condition' % (what, name))
+            old = env[name]
+            ty2 = 'Q' if 'Q' in (ty, old[0]) else ty
+            env2 = dict(env)
+            env2[name] = (ty2, 'v_' + name)
+            return 'let v_%s := if %s then %s else %s in\n  %s' % (
+                name, c[1], _coerce((ty, code), ty2, what), _coerce(old, ty2, what), _compile(rest, env2, what, optional))
+    if isinstance(n, (ast.Assign, ast.AugAssign)):
+        name, ty, code = _assign(n, env, what)
+        env2 = dict(env)
+        env2[name] = (ty, 'v_' + name)
+        return 'let v_%s := %s in\n  %s' % (name, code, _compile(rest, env2, what, optional))
+    raise TranslateError('%s: unsupported statement %s' % (what, _u(n)[:100]))
+
+
+def _assign(n, env, what):
+    if isinstance(n, ast.Assign):
+        if len(n.targets) != 1 or not isinstance(n.targets[0], ast.Name):
+            raise TranslateError('%s: unsupported assignment %s' % (what, _u(n)[:100]))
+        ty, code = tx(n.value, env, what)
+        return n.targets[0].id, ty, code
+    if not isinstance(n.target, ast.Name) or n.target.id not in env:
+        raise TranslateError('%s: unsupported augmented assignment %s' % (what, _u(n)[:100]))
+    fake = ast.BinOp(left=ast.Name(id=n.target.id, ctx=ast.Load()), op=n.op, right=n.value)
+    ty, code = tx(fake, env, what)
+    return n.target.id, ty, code
+
+
+def _plain_args(fn, expected, what):
+    a = fn.args
+    if [x.arg for x in a.args] != expected or a.vararg or a.kwarg or a.kwonlyargs or a.posonlyargs:
+        raise TranslateError('%s: parameters are %s' % (what, [x.arg for x in a.args]))
+
+
+def item_spw(repo, out):
+    rel = 'katdal/spectral_window.py'
+    cls = _class(_parse(repo, rel), 'SpectralWindow', rel)
+    for name in ('__init__', 'channel_freqs', 'subrange', 'rechannelise'):
+        if len([n for n in cls.body if isinstance(n, ast.FunctionDef) and n.name == name]) != 1:
+            raise TranslateError('spectral_window: %s defined %s times' % (name, 'several' if name else 0))
+    if [_u(b) for b in cls.bases] or cls.keywords or cls.decorator_list:
+        raise TranslateError('spectral_window: SpectralWindow has base classes / decorators')
+    watched = {'self.centre_freq', 'self.channel_width', 'self.bandwidth', 'self.num_chans', 'self.sideband',
+               'self._channel_freqs'}
+    # ---- __init__
+    init = _func(cls, '__init__', rel)
+    _plain_args(init, SPW_PARAMS, 'SpectralWindow.__init__')
+    dflt = [_u(d) for d in init.args.defaults]
+    if dflt != ['None', '-1', "'L'", 'None']:
+        raise TranslateError('spectral_window: __init__ defaults are %s' % dflt)
+    first = init.body[1] if isinstance(init.body[0], ast.Expr) else init.body[0]
+    if not (isinstance(first, ast.If) and _u(first.test) == 'bandwidthisNone' and len(first.body) == 1
+            and len(first.orelse) == 1 and isinstance(first.body[0], ast.Assign) and isinstance(first.orelse[0], ast.Assign)
+            and _u(first.body[0].targets[0]) == 'bandwidth' and _u(first.orelse[0].targets[0]) == 'channel_width'):
+        raise TranslateError('spectral_window: __init__ does not start with the bandwidth / channel_width alternative')
+    env = {'channel_width': ('Q', 'channel_width'), 'bandwidth': ('Q', 'bandwidth'), 'num_chans': ('Z', 'num_chans')}
+    init_bw = _coerce(tx(first.body[0].value, env, 'init bandwidth'), 'Q', 'init bandwidth')
+    init_cw = _coerce(tx(first.orelse[0].value, env, 'init channel_width'), 'Q', 'init channel_width')
+    params = {'centre_freq', 'channel_width', 'bandwidth', 'num_chans', 'sideband'}
+    stored = {}
+    for n, names in _stores(init):
+        if n in (first.body[0], first.orelse[0]):
+            continue
+        for x in names:
+            if x in params:
+                raise TranslateError('spectral_window: __init__ rebinds %s' % x)
+            if x in watched:
+                if n not in init.body or x in stored:
+                    raise TranslateError('spectral_window: __init__ stores %s conditionally / twice' % x)
+                stored[x] = _u(n)
+    want = {'self.' + p: 'self.%s=%s' % (p, p) for p in params}
+    want['self._channel_freqs'] = 'self._channel_freqs=None'
+    if stored != want:
+        raise TranslateError('spectral_window: __init__ stores %s' % sorted(stored.values()))
+    # ---- no other method may write the attributes
+    for fn in cls.body:
+        if isinstance(fn, ast.FunctionDef) and fn.name not in ('__init__', 'channel_freqs'):
+            for n, names in _stores(fn):
+                if any(x in watched for x in names):
+                    raise TranslateError('spectral_window: %s writes %s' % (fn.name, _u(n)[:80]))
+    # ---- channel_freqs
+    cf = _func(cls, 'channel_freqs', rel)
+    _plain_args(cf, ['self'], 'channel_freqs')
+    if [_u(d) for d in cf.decorator_list] != ['property']:
+        raise TranslateError('spectral_window: channel_freqs is not a plain property')
+    body = [n for n in cf.body if not (isinstance(n, ast.Expr) and isinstance(n.value, ast.Constant))]
+    if not (len(body) == 1 and isinstance(body[0], ast.With) and len(body[0].body) == 2
+            and isinstance(body[0].body[0], ast.If) and _u(body[0].body[0].test) == 'self._channel_freqsisNone'
+            and len(body[0].body[0].body) == 1 and not body[0].body[0].orelse
+            and isinstance(body[0].body[0].body[0], ast.Assign)
+            and _u(body[0].body[0].body[0].targets[0]) == 'self._channel_freqs'
+            and _u(body[0].body[1]) == 'returnself._channel_freqs'):
+        raise TranslateError('spectral_window: channel_freqs is not compute-once-and-return')
+    env = dict(SPW_SELF)
+    env['@arange'] = ('self.num_chans', 'k')
+    freq = _coerce(tx(body[0].body[0].body[0].value, env, 'channel_freqs'), 'Q', 'channel_freqs')
+    # ---- subrange, rechannelise
+    sub = _func(cls, 'subrange', rel)
+    _plain_args(sub, ['self', 'first', 'last'], 'subrange')
+    env = dict(SPW_SELF)
+    env.update(first=('Z', 'first'), last=('Z', 'last'))
+    sub_code = _compile(sub.body, env, 'subrange', True)
+    rec = _func(cls, 'rechannelise', rel)
+    _plain_args(rec, ['self', 'num_chans'], 'rechannelise')
+    env = dict(SPW_SELF)
+    env.update(num_chans=('Z', 'num_chans'))
+    rec_code = _compile(rec.body, env, 'rechannelise', False)
+    if sub.decorator_list or rec.decorator_list or init.decorator_list:
+        raise TranslateError('spectral_window: decorated methods')
+    res = '(A * A * Z * Z * option A)'
+    out.append('(* SpectralWindow(...) results are (centre_freq, channel_width, num_chans, sideband, bandwidth keyword) *)')
+    out.append('Definition gen_spw_init_bandwidth %s (channel_width : A) (num_chans : Z) : A := %s.' % (OPS, init_bw))
+    out.append('Definition gen_spw_init_width %s (bandwidth : A) (num_chans : Z) : A := %s.' % (OPS, init_cw))
+    out.append('Definition gen_spw_channel_freq %s %s (k : Z) : A :=\n  %s.' % (OPS, SPW_SELF_BINDERS, freq))
+    out.append('Definition gen_spw_subrange %s %s (first last : Z) : option %s :=\n  %s.'
+               % (OPS, SPW_SELF_BINDERS, res, sub_code))
+    out.append('Definition gen_spw_rechannelise %s %s (num_chans : Z) : %s :=\n  %s.'
+               % (OPS, SPW_SELF_BINDERS, res, rec_code))
+
+
+# --------------------------------------------------------------------------- VisibilityDataV4.__init__: frequency axis
+
+FREQ_TARGETS = {'num_chans', 'bandwidth', 'centre_freq', 'channel_width', 'sideband', 'spw', 'start', 'stop', 'stride',
+                'self.spectral_windows', 'spws'}
+
+
+def item_v4_freq(repo, out):
+    init = _v4_init(repo)
+    seq = []
+    for n, names in _stores(init):
+        if any(x in FREQ_TARGETS for x in names):
+            seq.append(n)
+    seq.sort(key=lambda n: (n.lineno, n.col_offset))
+    texts = [_u(n) for n in seq]
+    ctor = 'spw=SpectralWindow(centre_freq,channel_width,num_chans,product,sideband,band_map[band])'
+    if len(seq) != 12 or not all(isinstance(n, ast.Assign) and len(n.targets) == (2 if k == 11 else 1)
+                                 for k, n in enumerate(seq)):
+        raise TranslateError('visdatav4: frequency-axis statements are %s' % texts)
+    texts = [t.replace('(start,stop,stride)=', 'start,stop,stride=') for t in texts]
+    fixed = {5: ctor, 6: "start,stop,stride=preselect['channels'].indices(num_chans)", 7: 'spw=spw.subrange(start,stop)',
+             8: 'num_chans=source.data.shape[1]', 9: 'centre_freq=0.0', 10: ctor, 11: 'self.spectral_windows=spws=[spw]'}
+    for k, want in fixed.items():
+        if texts[k] != want:
+            raise TranslateError('visdatav4: frequency-axis statement %d is %s' % (k, texts[k]))
+    keys = {}
+    for k, name in enumerate(('num_chans', 'bandwidth', 'centre_freq')):
+        n = seq[k]
+        v = n.value
+        if not (_u(n.targets[0]) == name and n in init.body and isinstance(v, ast.Subscript) and _u(v.value) == 'attrs'
+                and isinstance(v.slice, ast.Constant) and isinstance(v.slice.value, str)):
+            raise TranslateError('visdatav4: %s is %s' % (name, texts[k]))
+        keys[name] = v.slice.value
+    if _u(seq[3].targets[0]) != 'channel_width' or _u(seq[4].targets[0]) != 'sideband' or \
+            not all(n in init.body for n in seq[:6]):
+        raise TranslateError('visdatav4: channel_width / sideband statements are %s, %s' % (texts[3], texts[4]))
+    env = {'bandwidth': ('Q', 'bandwidth'), 'num_chans': ('Z', 'num_chans')}
+    cw = _coerce(tx(seq[3].value, env, 'v4 channel_width'), 'Q', 'v4 channel_width')
+    sb = tx(seq[4].value, {}, 'v4 sideband')
+    if sb[0] != 'Z':
+        raise TranslateError('visdatav4: sideband is %s' % texts[4])
+    # the two conditionals: channel preselection, and the fallback when metadata and data disagree
+    pre = [n for n in init.body if isinstance(n, ast.If) and _u(n.test) == "'channels'inpreselect"]
+    if not (len(pre) == 1 and not pre[0].orelse and [_u(x) for x in pre[0].body] ==
+            [_u(seq[6]), 'assertstride==1', fixed[7]]):
+        raise TranslateError("visdatav4: `if 'channels' in preselect:` block not as expected")
+    fb = [n for n in init.body if isinstance(n, ast.If) and 'source.data.shape[1]' in _u(n.test)]
+    if not (len(fb) == 1 and _u(fb[0].test) == 'source.dataandspw.num_chans!=source.data.shape[1]'
+            and not fb[0].orelse and seq[8] in fb[0].body and seq[9] in fb[0].body and seq[10] in fb[0].body):
+        raise TranslateError('visdatav4: channel-count fallback not as expected')
+    order = [init.body.index(seq[5]), init.body.index(pre[0]), init.body.index(fb[0]), init.body.index(seq[11])]
+    if order != sorted(order):
+        raise TranslateError('visdatav4: spectral window statements out of order')
+    out.append('Definition gen_v4_freq_attrs : list (string * string) := [%s].' % '; '.join(
+        '(%s, %s)' % (coq_string(k), coq_string(keys[k])) for k in ('num_chans', 'bandwidth', 'centre_freq')))
+    out.append('Definition gen_v4_channel_width %s (bandwidth : A) (num_chans : Z) : A := %s.' % (OPS, cw))
+    out.append('Definition gen_v4_sideband : Z := %s.' % sb[1])
+
+
+ITEMS = [item_fix_rule, item_v4_time, item_ds_time, item_preselect, item_spw, item_v4_freq]
